@@ -1093,9 +1093,18 @@ func (e *Engine) evalSpecCall(env *Env, sf *SpecFunc, args []Expr) (TV, error) {
 		avs = append(avs, v)
 	}
 	specEnv := &Env{s: env.s, fr: nil, vars: map[string]Value{}, vtypes: map[string]types.Type{}, old: env.old, pkg: env.pkg, inOld: env.inOld}
+	if sf.Pkg != "" {
+		// type names inside a spec function resolve in the package that declares it
+		for _, p := range e.prog.AllPackages() {
+			if p.Pkg.Path() == sf.Pkg {
+				specEnv.pkg = p.Pkg
+				break
+			}
+		}
+	}
 	if sf.Body != nil {
 		for i, p := range sf.Params {
-			ty, _, err := e.resolveType(env, p.Type)
+			ty, _, err := e.resolveType(specEnv, p.Type)
 			if err != nil {
 				return TV{}, fmt.Errorf("spec func %s: %v", sf.Name, err)
 			}
@@ -1113,7 +1122,7 @@ func (e *Engine) evalSpecCall(env *Env, sf *SpecFunc, args []Expr) (TV, error) {
 		if err != nil {
 			return TV{}, fmt.Errorf("in spec func %s: %v", sf.Name, err)
 		}
-		rty, _, _ := e.resolveType(env, sf.Ret)
+		rty, _, _ := e.resolveType(specEnv, sf.Ret)
 		if rty != nil {
 			r.T = rty
 		}
@@ -1123,7 +1132,7 @@ func (e *Engine) evalSpecCall(env *Env, sf *SpecFunc, args []Expr) (TV, error) {
 	var sorts []string
 	var ats []Term
 	for i, p := range sf.Params {
-		_, so, err := e.resolveType(env, p.Type)
+		_, so, err := e.resolveType(specEnv, p.Type)
 		if err != nil {
 			return TV{}, fmt.Errorf("spec func %s: %v", sf.Name, err)
 		}
@@ -1134,7 +1143,7 @@ func (e *Engine) evalSpecCall(env *Env, sf *SpecFunc, args []Expr) (TV, error) {
 		}
 		ats = append(ats, t)
 	}
-	rty, rs, err := e.resolveType(env, sf.Ret)
+	rty, rs, err := e.resolveType(specEnv, sf.Ret)
 	if err != nil {
 		return TV{}, fmt.Errorf("spec func %s: %v", sf.Name, err)
 	}
